@@ -58,7 +58,7 @@ def run(ctx):
   terms, recs = [], []
   n = 60 if thorough else 14
   import json as _json, os as _os
-  corpus = _json.load(open(_os.path.join('/verif', 'corpus', 'C13_nonconverged.json')))
+  corpus = _json.load(open(_os.path.join(_os.path.dirname(_os.path.dirname(_os.path.dirname(_os.path.abspath(__file__)))), 'corpus', 'C13_nonconverged.json')))
   for i in range(-1, n):
     if i == -1:
       # corpus case (listed finding): positive definite solver input on which scikit-learn's solver does not converge
